@@ -1,4 +1,4 @@
-(* Properties_C01.v — C01: written configurations read back as the same configuration.  PARTIAL (second write).
+(* Properties_C01.v — C01: written configurations read back as the same configuration.
    Theorems only (proofs in ClassCheck.v, ClassCert.v, RoundFacts.v, LexRound.v, WriterFacts.v).
 
    What is proved, for all values (no bound on magnitudes, lengths or contents):
@@ -20,14 +20,19 @@
        every option vector, as exactly the token stream of its pieces (C01_written_text_tokens).
    (7) the parser accepts that token stream and rebuilds the tree: C01_read_written is the first half of the
        property as a theorem - config_read_string (config_write c) succeeds and yields the equivalent configuration.
-   What is NOT proved: that writing the re-read configuration reproduces the same text (it needs the stability of
-   each float under render-read-render, which is false for the classes F1c and is evaluated, not proved).  That statement is checked on every run of the
+   (8) writing the re-read configuration reproduces the same text, given that every float is stable under render -
+       read - render (C01_second_write); C01_roundtrip states both clauses together.
+   Hypotheses, all explicit and each matching a finding or a documented limit: writable (no TYPE_NONE leaves, values in
+   range, floats whose rendering is a float literal that does not overflow: F1b; names that are not boolean keywords:
+   F2), pstruct (what the API maintains: C04), the nesting limit (F3), stable (F1c).  The cut of a %f rendering (F1)
+   does not violate any hypothesis: such a float is re-read as the strtod of its (cut) rendering, which is what
+   C01_read_written states, and is not equal to the original value.  That statement is checked on every run of the
    C01 check on the real library (rtrip) and between model and library.  Known findings (known_findings.json):
    F1/F1b/F1c (float renderings), F2 (keyword-named members: the hypothesis of C01_lex_name), F3 (nesting). *)
 From Coq Require Import List ZArith NArith Bool.
 Import ListNotations.
 From LC Require Import Base BaseFacts Tree Fp Api ScanAction FlexEngine Tokens Lexer Reader Regex RegexFacts Bisim
-  ScannerSpec ScannerCert ClassCheck ClassCert LiteralFacts RoundFacts LexRound LexWrite ParseWrite Parser Writer WriterFacts.
+  ScannerSpec ScannerCert ClassCheck ClassCert LiteralFacts RoundFacts LexRound LexWrite ParseWrite WriteStable RoundExample Parser Writer WriterFacts Run.
 From LC.gen Require Import Consts ScannerTables.
 Local Open Scope Z_scope.
 
@@ -206,6 +211,63 @@ Theorem C01_parser_accepts_written : forall fmt_double atof c overrides v,
   writable fmt_double atof c v -> pstruct v -> val_ok fmt_double atof c overrides v.
 Proof. exact val_ok_all. Qed.
 Print Assumptions C01_parser_accepts_written.
+
+
+(* ---- (8) the second write: writing the re-read configuration reproduces the text ----
+   Under the hypotheses of (7), when in addition the configuration read into has the same four output attributes
+   (options, tab width, precision, default format) and every value is stable: integer formats are 0 or 1 (all the
+   API stores) and every float is unchanged by render - read - render at the configured precision and notation.
+   That last hypothesis is per value and is NOT true of every double (finding F1c: denormals under %g); it is
+   evaluated on every run of the check (rtrip compares the two texts). *)
+Theorem C01_second_write : forall fmt_double atof FS c c2 kids f h l fi,
+  c_root c = Setting None PGroup kids f h l fi -> kids <> [] ->
+  writable fmt_double atof c (c_root c) -> pstruct (c_root c) -> stable fmt_double atof c (c_root c) ->
+  nest_of (flat_map (piece_tok fmt_double atof c) (pieces c (c_root c) 0) ++ [TkEOF]) 0 0 <= NEST_LIMIT ->
+  same_out c c2 ->
+  config_write fmt_double (rd_cfg (config_read atof FS c2 None (config_write fmt_double c))) = config_write fmt_double c.
+Proof. exact second_write. Qed.
+Print Assumptions C01_second_write.
+
+(* the property, both clauses *)
+Theorem C01_roundtrip : forall fmt_double atof FS c c2 kids f h l fi,
+  c_root c = Setting None PGroup kids f h l fi -> kids <> [] ->
+  writable fmt_double atof c (c_root c) -> pstruct (c_root c) -> stable fmt_double atof c (c_root c) ->
+  nest_of (flat_map (piece_tok fmt_double atof c) (pieces c (c_root c) 0) ++ [TkEOF]) 0 0 <= NEST_LIMIT ->
+  same_out c c2 ->
+  let r := config_read atof FS c2 None (config_write fmt_double c) in
+  rd_out_ r = RdOk /\
+  obs (c_root (rd_cfg r)) = ON None PGroup 0 (map (fun m => nobs fmt_double atof c (s_name m) m) kids) /\
+  config_write fmt_double (rd_cfg r) = config_write fmt_double c.
+Proof.
+  intros fd atof FS c c2 kids f h l fi Hroot Hk Hw Hs Hst Hn Hso. cbv zeta.
+  destruct (read_written fd atof FS c c2 kids f h l fi Hroot Hk Hw Hs Hn) as [A B].
+  split; [exact A|]. split; [exact B|]. exact (second_write fd atof FS c c2 kids f h l fi Hroot Hk Hw Hs Hst Hn Hso).
+Qed.
+Print Assumptions C01_roundtrip.
+
+
+(* ---- the hypotheses are satisfiable: a configuration with every scalar type, an escaped string, a NULL string,
+   hex formats, INT_MIN, a list holding an array, a nested group, satisfies all of them, so C01_roundtrip applies ---- *)
+Example C01_hypotheses_satisfiable :
+  writable fmt_double atof ex_cfg ex_root /\ pstruct ex_root /\ stable fmt_double atof ex_cfg ex_root /\
+  nest_of (flat_map (piece_tok fmt_double atof ex_cfg) (pieces ex_cfg ex_root 0) ++ [TkEOF]) 0 0 <= NEST_LIMIT.
+Proof. exact (conj ex_writable (conj ex_pstruct (conj ex_stable ex_nest))). Qed.
+
+(* ---- and necessary: each excluded class, evaluated on the model with glibc-exact printf/strtod (vm_compute) ---- *)
+Theorem C01_refuted_keyword : rd_out_ (reread (one_member [116; 114; 117; 101] (PInt 1))) = RdFail.
+Proof. exact keyword_name_refuted. Qed.
+Theorem C01_refuted_g_overflow :
+  rd_out_ (reread (set_prec (set_options (one_member [120] (PFloat 9218868437227405311)) 54) 15)) = RdFail.
+Proof. exact g_overflow_refuted. Qed.
+Theorem C01_refuted_g_denormal :
+  let c := set_prec (set_options (one_member [120] (PFloat 21)) 54) 2 in
+  rd_out_ (reread c) = RdOk /\ config_write fmt_double (set_prec (set_options (rd_cfg (reread c)) 54) 2) <> config_write fmt_double c.
+Proof. exact g_denormal_refuted. Qed.
+Theorem C01_refuted_float_cut :
+  let c := one_member [120] (PFloat 14715482615620799058) in
+  rd_out_ (reread c) = RdOk /\
+  match s_kids (c_root (rd_cfg (reread c))) with [m] => s_pl m <> PFloat 14715482615620799058 | _ => False end.
+Proof. exact f_cut_refuted. Qed.
 
 (* non-vacuity: a string with a quote, a backslash, a newline, a control byte and a high byte, evaluated on the
    model: the scanner returns exactly that string *)
